@@ -2287,3 +2287,96 @@ def rule_n2(ctx):
     if n == 0:
         r.ok("N2", "FSA", FSA_REL, "",
              "no truthiness test on a vertex / label variable")
+
+
+def rule_bfs5(ctx):
+    r = ctx.r
+    r.rule("BFS5", "a worklist traversal marks a vertex when it is QUEUED: "
+                   "the `append` of a vertex to the queue sits in a block "
+                   "that also records it in the container the guard reads "
+                   "(`marked[w] = True`, `seen.add(w)`, `distance[w] = ..`). "
+                   "Marking only when a vertex is popped lets every path "
+                   "that reaches a vertex queue it again: the result is the "
+                   "same, the work is proportional to the number of PATHS "
+                   "-- automaton(even_length=True) of F4 expands 5.3 million "
+                   "states for 1152, of H4 it does not return")
+    cls = fsa_class(ctx)
+    n = 0
+    for f in cls.methods.values():
+        queues = set()
+        for st in ast.walk(f.node):
+            if isinstance(st, ast.Assign) and isinstance(st.value, ast.Call) \
+                    and dotted(st.value.func) in ("deque",
+                                                  "collections.deque") \
+                    and len(st.targets) == 1 \
+                    and isinstance(st.targets[0], ast.Name):
+                queues.add(st.targets[0].id)
+        if not queues:
+            continue
+        parents = f.module.parents
+        for c in ast.walk(f.node):
+            if not (isinstance(c, ast.Call) and isinstance(
+                    c.func, ast.Attribute) and c.func.attr in (
+                        "append", "appendleft")
+                    and isinstance(c.func.value, ast.Name)
+                    and c.func.value.id in queues and c.args
+                    and isinstance(c.args[0], ast.Name)):
+                continue
+            # only pushes inside the traversal loop
+            par = parents.get(c)
+            in_loop = False
+            block = None
+            while par is not None and par is not f.node:
+                if isinstance(par, ast.While):
+                    in_loop = True
+                if block is None and isinstance(par, (ast.If, ast.For,
+                                                      ast.While)):
+                    block = par
+                par = parents.get(par)
+            if not in_loop:
+                continue
+            n += 1
+            r.analysed(f)
+            w = c.args[0].id
+            # marking of w at push time: in the enclosing block (or the
+            # enclosing loop body), a store keyed by w / an add of w
+            scope = block if block is not None else f.node
+            enclosing_for = scope
+            pp = parents.get(c)
+            while pp is not None and pp is not f.node:
+                if isinstance(pp, ast.For):
+                    enclosing_for = pp
+                    break
+                pp = parents.get(pp)
+            marked = False
+            for region in {id(scope): scope,
+                           id(enclosing_for): enclosing_for}.values():
+                for st in ast.walk(region):
+                    if isinstance(st, ast.Assign) and any(
+                            isinstance(t, ast.Subscript)
+                            and isinstance(t.slice, ast.Name)
+                            and t.slice.id == w for t in st.targets):
+                        marked = True
+                    if isinstance(st, ast.Call) and isinstance(
+                            st.func, ast.Attribute) and st.func.attr in (
+                                "add",) and st.args and isinstance(
+                                    st.args[0], ast.Name) \
+                            and st.args[0].id == w:
+                        marked = True
+            inst = f"{f.qualname}:push({w})"
+            if marked:
+                r.ok("BFS5", inst, loc(f, c), dotted(c)[:60],
+                     f"`{w}` is recorded where it is queued")
+            else:
+                r.violation(
+                    "BFS5", f"{f.fq}|{w}", loc(f, c), dotted(c)[:80],
+                    f"`{dotted(c)[:50]}` queues `{w}` without recording it: "
+                    "the guard only sees vertices that were already POPPED, "
+                    "so a vertex reached by several paths before its turn "
+                    "is queued (and expanded) once per path. On the "
+                    "geodesic automaton of H4 (14 400 states) "
+                    "automaton(even_length=True) does not return",
+                    instance=inst)
+    if n == 0:
+        r.note("BFS5", FSA_REL, "FSA", "no queue push inside a traversal "
+               "loop (not judged)")
